@@ -375,6 +375,15 @@ pub struct Buffer<T> {
 impl<T> Buffer<T> {
     /// Create a new Buffer.
     pub fn new(size: usize) -> Result<Self> {
+        let member_size = std::mem::size_of::<T>();
+        if member_size == 0 || size % member_size != 0 {
+            // The two mappings alias at byte offset `size`. If that's not a
+            // whole number of elements, then element `capacity` is not the
+            // same memory as element 0, and data is corrupted on wrap.
+            return Err(Error::msg(format!(
+                "circular buffer size {size} is not a multiple of the element size {member_size}"
+            )));
+        }
         Ok(Self {
             state: Arc::new((
                 Mutex::new(BufferState {
